@@ -373,6 +373,10 @@ func (l *lexer) scan() {
 					l.column++
 					l.tag.name, p = l.scanTag(p)
 					if l.tag.name != "" {
+						// After the tag, return to the current content context: in the
+						// body of a macro declaration or using statement with an explicit
+						// type it is not the context of the file.
+						l.tag.ctx = l.ctx
 						l.ctx = ast.ContextTag
 						switch l.tag.name {
 						case "script":
